@@ -14,8 +14,14 @@
   * `runInChild` — `Env::run_in_child_process` over `VirtualSystem::run_in_child_process`.
   * `subshellEntry` — the child prologue of `subshell::Config::start` (push `Frame::Subshell`, `disown_all`,
     `TrapSet::enter_subshell`), using the Trap model of C11.
-  * the mutators of the sweep (`applyOp`), the four kinds of subshell of `yash-semantics`, and the snapshot
-    the harness takes with real built-ins.
+  * `Call` / `Call.runT` / `Call.run` — ten system calls of `impl … for VirtualSystem` (system/virtual.rs) with the
+    `Process` methods they use and their error branches, as functions of the caller's own `Process`; the `X:`
+    cases drive them on the real shared `SystemState` (Fork/Shared.lean has the table).
+  * `openAndOverwrite` / `performRedir` / `execRedir` — the redirection engine of `yash-semantics/src/redir.rs`
+    (`open_and_overwrite`, `perform`, `RedirGuard::preserve_redirs`) composed from those calls.
+  * the mutators of the sweep (`applyOp`; `umask`, `cd`, `ulimit -n` and the `exec` redirections are built from the
+    calls above, a failing special built-in ends the shell through `builtinError`), the kinds of subshell of
+    `yash-semantics`, and the snapshot the harness takes with real built-ins.
 
   Import-free apart from `YashModel.*`; executable.  A `&mut` is a returned value; the shared
   `Rc<RefCell<SystemState>>` is modelled *by value* (no aliasing) — that is exactly the part of the property
